@@ -232,6 +232,16 @@ def call(eng, ctx, cp, self_ty, trait, generics, args, env):
     if sn == "Arguments" or sn == "Argument":
         return Adt("FmtArgs", None, [])
 
+    # ---- core::cmp::{min, max} on integers ------------------------------------------------
+    if cp.kind == "free" and m in ("min", "max") and raw.startswith("core::cmp::") and len(args) == 2 \
+            and all(isinstance(a, Sc) for a in args):
+        a, b = args
+        if not is_sym(a.v) and not is_sym(b.v):
+            return (a if int(a.v) <= int(b.v) else b) if m == "min" else (b if int(b.v) >= int(a.v) else a)
+        x, y = bv(a), bv(b)
+        le = (x <= y) if a.signed else z3.ULE(x, y)
+        return Sc(a.ty, z3.If(le, x, y) if m == "min" else z3.If(le, y, x))
+
     # ---- Try / FromResidual --------------------------------------------------------------
     if tn == "Try" and m == "branch":
         r = args[0]
@@ -392,8 +402,13 @@ def call(eng, ctx, cp, self_ty, trait, generics, args, env):
         r = vec_model(eng, ctx, cp, self_ty, trait, m, args)
         if r is not NO_MODEL:
             return r
-    if tn == "Index" and m == "index":
+    if tn in ("Index", "IndexMut") and m in ("index", "index_mut") and isinstance(deref(args[1]), Adt) \
+            and deref(args[1]).ty in RANGE_TYPES and isinstance(deref(args[0]), (VecV, Arr)):
+        return Ref(Cell(slice_range(ctx, deref(args[0]), deref(args[1]), raw)))
+    if tn in ("Index", "IndexMut") and m in ("index", "index_mut"):
         v, i = deref(args[0]), args[1]
+        if isinstance(v, Arr):
+            v = VecV(v.fields, None, "vec")
         if isinstance(i, Sc) and not is_sym(i.v):
             if v.elems is None:
                 _unsupported("index into opaque sequence")
@@ -824,8 +839,28 @@ def vec_model(eng, ctx, cp, self_ty, trait, m, args):
         et = self_ty.args[0]
         cmpf = FnV(py=lambda c, a: eng.dispatch(c, _cp("<%s as Ord>::cmp" % et), a, {}))
         return sort_by(eng, ctx, v, cmpf)
-    if m == "sort_by_key":
-        _unsupported("sort_by_key")
+    if m in ("sort_by_key", "sort_by_cached_key", "sort_unstable_by_key") and v.elems is not None:
+        keyed = [(eng.call_fnv(ctx, args[1], [Ref(Cell(x))]), x) for x in v.elems]
+        out = []
+        for kx in keyed:
+            k = len(out)
+            while k > 0 and generic_cmp(eng, ctx, out[k - 1][0], kx[0]) > 0:
+                k -= 1
+            out.insert(k, kx)
+        v.elems[:] = [x for _, x in out]
+        return UNIT
+    if m in ("copy_from_slice", "clone_from_slice") and v.elems is not None:
+        src = deref(args[1])
+        if isinstance(src, Arr):
+            src = VecV(src.fields, None, "vec")
+        if src.elems is None or any(isinstance(e, Opaque) for e in src.elems):
+            _unsupported("copy_from_slice from an opaque byte string")
+        if len(src.elems) != len(v.elems):
+            _panic("copy_from_slice", "source slice length (%d) does not match destination slice length (%d)"
+                   % (len(src.elems), len(v.elems)), cp.raw)
+        for i in range(len(v.elems)):
+            v.elems[i] = src.elems[i]
+        return UNIT
     if m == "sort_by":
         return sort_by(eng, ctx, v, args[1])
     if m in ("as_slice", "as_bytes", "as_str", "as_mut_slice"):
@@ -941,6 +976,119 @@ def binary_search(eng, ctx, self_ty, v, key, by):
     if c == 0:
         return OK(Sc("usize", base))
     return ERR(Sc("usize", base + (1 if c < 0 else 0)))
+
+
+RANGE_TYPES = ("Range", "RangeTo", "RangeFrom", "RangeFull", "RangeInclusive", "RangeToInclusive")
+
+
+class ViewList:
+    """Window [a, b) onto a Python list: the element list of a sub-slice (`&mut v[a..b]`), writes go
+    through to the underlying vector / array."""
+
+    def __init__(self, base, a, b):
+        self.base, self.a, self.b = base, a, b
+
+    def __len__(self):
+        return self.b - self.a
+
+    def __iter__(self):
+        return iter(self.base[self.a:self.b])
+
+    def __getitem__(self, i):
+        if isinstance(i, slice):
+            return self.base[self.a:self.b][i]
+        if i < 0:
+            i += len(self)
+        if not 0 <= i < len(self):
+            raise IndexError(i)
+        return self.base[self.a + i]
+
+    def __setitem__(self, i, x):
+        if isinstance(i, slice):
+            new = list(self.base[self.a:self.b])
+            new[i] = x
+            if len(new) != len(self):
+                raise ValueError("a sub-slice cannot change its length")
+            self.base[self.a:self.b] = new
+            return
+        if i < 0:
+            i += len(self)
+        if not 0 <= i < len(self):
+            raise IndexError(i)
+        self.base[self.a + i] = x
+
+    def __add__(self, other):
+        return list(self) + list(other)
+
+    def __radd__(self, other):
+        return list(other) + list(self)
+
+    def __eq__(self, other):
+        return list(self) == list(other)
+
+    def index(self, x):
+        return list(self).index(x)
+
+    def reverse(self):
+        self[:] = list(reversed(list(self)))
+
+
+def slice_range(ctx, v, rv, raw):
+    """`&v[a..b]` on a vector / array / slice with concrete element list and concrete bounds."""
+    base = v.fields if isinstance(v, Arr) else v.elems
+    kind = "vec" if isinstance(v, Arr) else v.kind
+    if base is None:
+        _unsupported("range index into an opaque byte string")
+    if any(isinstance(e, Opaque) for e in base):
+        _unsupported("range index into a byte string with opaque segments")
+    n = len(base)
+    get = lambda x: int(x.v) if not is_sym(x.v) else _unsupported("symbolic range bound in slice index")
+    ty = rv.ty
+    if ty == "RangeTo":
+        a, b = 0, get(rv.fields[0])
+    elif ty == "RangeFrom":
+        a, b = get(rv.fields[0]), n
+    elif ty == "Range":
+        a, b = get(rv.fields[0]), get(rv.fields[1])
+    elif ty == "RangeFull":
+        a, b = 0, n
+    elif ty == "RangeInclusive":
+        a, b = get(rv.fields[0]), get(rv.fields[1]) + 1
+    else:
+        a, b = 0, get(rv.fields[0]) + 1
+    if a > b:
+        _panic("index", "slice index starts at %d but ends at %d" % (a, b), raw)
+    if b > n:
+        _panic("index", "range end index %d out of range for slice of length %d" % (b, n), raw)
+    if kind in ("string", "str"):
+        _unsupported("range index of text through the byte-slice model")
+    return VecV(ViewList(base, a, b), None, kind)
+
+
+def generic_cmp(eng, ctx, a, b):
+    """`Ord::cmp` of std-typed values (integers, tuples, arrays, byte vectors): -1 / 0 / 1, forking
+    on symbolic scalars."""
+    a, b = deref(a), deref(b)
+    if isinstance(a, Sc) and isinstance(b, Sc):
+        if not is_sym(a.v) and not is_sym(b.v):
+            return (int(a.v) > int(b.v)) - (int(a.v) < int(b.v))
+        x, y = bv(a), bv(b)
+        if ctx.branch(x == y, "cmp-eq"):
+            return 0
+        return -1 if ctx.branch((x < y) if a.signed else z3.ULT(x, y), "cmp-lt") else 1
+    if isinstance(a, (Tup, Arr)) and isinstance(b, (Tup, Arr)):
+        for x, y in zip(a.fields, b.fields):
+            c = generic_cmp(eng, ctx, x, y)
+            if c:
+                return c
+        return (len(a.fields) > len(b.fields)) - (len(a.fields) < len(b.fields))
+    if isinstance(a, VecV) and isinstance(b, VecV) and a.elems is not None and b.elems is not None:
+        for x, y in zip(a.elems, b.elems):
+            c = generic_cmp(eng, ctx, x, y)
+            if c:
+                return c
+        return (len(a.elems) > len(b.elems)) - (len(a.elems) < len(b.elems))
+    _unsupported("Ord::cmp of %r and %r" % (type(a).__name__, type(b).__name__))
 
 
 def sort_by(eng, ctx, v, f):
